@@ -281,6 +281,9 @@ func c29signerCase(r *vkit.Run, tgt *sigTarget, spec reqSpec) {
 	for _, res := range results {
 		r.Count(fmt.Sprintf("signer_status_%s_%d", res.Transport, res.Status), 1)
 		briefs = append(briefs, res.brief())
+		if res.panicked() {
+			report(r, "panic-in-signature-middleware", "SDK-signed request made the middleware panic: "+res.Err, c29witness{Part: "signer", Spec: &spec, WireHead: wireHead(b.Wire)})
+		}
 		if !baselineOK(b, res) {
 			bad = true
 		}
